@@ -78,3 +78,44 @@ Theorem C06_gpu_accept_sound : forall req bsize q body,
     /\ body = skipn 12 bytes.
 Proof. exact gpu_wait_sound. Qed.
 Print Assumptions C06_gpu_accept_sound.
+
+(* ---- the acceptance decisions of the frontend's reply readers, REGENERATED from frontend.rs / connection.rs
+   (Gen/GenFeRecv.v) and called by the model the theorems above are about ---- *)
+From VV Require Import Gen.GenFeRecv Proofs.FeRecvProofs.
+From Coq Require Import List String.
+Import ListNotations.
+
+(* a fixed-size reply / an acknowledgement is accepted only if it answers that very request, carries no descriptors and has a valid body *)
+Theorem C06_reply_acceptance_regenerated : forall irf hf bv, frr_d2 irf hf bv = false <-> irf = true /\ hf = false /\ bv = true.
+Proof. exact frr_d2_spec. Qed.
+Print Assumptions C06_reply_acceptance_regenerated.
+
+Theorem C06_ack_acceptance_regenerated : forall irf hf bv, fra_d2 irf hf bv = false <-> irf = true /\ hf = false /\ bv = true.
+Proof. exact fra_d2_spec. Qed.
+Print Assumptions C06_ack_acceptance_regenerated.
+
+(* replies that may or must carry descriptors *)
+Theorem C06_reply_with_files_acceptance_regenerated :
+  (forall irf hf bv, fro_d2 irf hf bv = false <-> irf = true /\ bv = true) /\ (forall hf, frf_d1 hf = false <-> hf = true).
+Proof. split; [exact fro_d2_spec|exact frf_d1_spec]. Qed.
+Print Assumptions C06_reply_with_files_acceptance_regenerated.
+
+(* the variable-length reply: its header answers the request, carries no descriptors and announces a size between the
+   fixed part and what was asked for; its body is valid and exactly as long as asked for *)
+Theorem C06_payload_reply_acceptance_regenerated :
+  (forall irf hf size tsz hs, frp_d2 irf hf size tsz hs = false <-> irf = true /\ hf = false /\ tsz <= size /\ size <= hs)
+  /\ (forall bv bl hs tsz, frp_d4 bv bl hs tsz = false <-> bv = true /\ bl = hs - tsz).
+Proof. split; [exact frp_d2_spec|exact frp_d4_spec]. Qed.
+Print Assumptions C06_payload_reply_acceptance_regenerated.
+
+(* every received header and body is validated before any reader looks at it *)
+Theorem C06_received_message_validated_regenerated : forall b t hv bv,
+  (frb_d1 b t hv bv = false <-> b = t) /\ (frb_d2 b t hv bv = false <-> hv = true /\ bv = true).
+Proof. exact frb_spec. Qed.
+Print Assumptions C06_received_message_validated_regenerated.
+
+(* which result each decision returns, and the statements between the decisions *)
+Theorem C06_reader_statements_regenerated :
+  [frr_shape; fro_shape; frf_shape; frp_shape; fra_shape; frh_shape; frb_shape] = fe_recv_shapes_expected.
+Proof. exact fe_recv_shapes_ok. Qed.
+Print Assumptions C06_reader_statements_regenerated.
